@@ -103,6 +103,13 @@ func routeGen(kind string, sequential bool) func(r *rand.Rand, tier string) []sp
 					p.Items = append(p.Items, spec.RouteItem{Dir: side, AcceptFirst: true, GapMs: 3500, HoldAtGotInfoMs: 2500, ID: 5000000 + uint32(len(out))*4 + uint32(k)})
 				}
 			}
+			if kind == "grpc" && i%4 == 2 {
+				// the callback shape: the same id number is used in the other direction first, and the dialling
+				// side closes its own listener of that number between the pair's accept and dial
+				for k, side := range []string{"host", "plugin"} {
+					p.Items = append(p.Items, spec.RouteItem{Dir: side, AcceptFirst: true, GapMs: 200 + 400*k, CallbackShape: true, ID: 8000000 + uint32(len(out))*4 + uint32(k)})
+				}
+			}
 			if kind == "grpc" && i%4 == 1 {
 				// ids that were dialled once in vain (timed out) before their pair is established
 				for k, side := range []string{"host", "plugin"} {
@@ -122,6 +129,13 @@ func routeGen(kind string, sequential bool) func(r *rand.Rand, tier string) []sp
 				for k, side := range []string{"host", "plugin"} {
 					p.Items = append(p.Items, spec.RouteItem{Dir: side, AcceptFirst: false, GapMs: 4000, HoldAtPickupMs: 1300, Len: r.Intn(3000),
 						ID: 4000000 + uint32(len(out))*4 + uint32(k)})
+				}
+			}
+			if kind == "mux" && i%4 == 1 {
+				// one-way transfers to a slow consumer: the sender closes at once, the reader starts 6 s later
+				for k, side := range []string{"host", "plugin"} {
+					p.Items = append(p.Items, spec.RouteItem{Dir: side, AcceptFirst: k == 0, GapMs: 100, LateReadMs: 6000, Len: []int{300, 100000}[k],
+						ID: 9000000 + uint32(len(out))*4 + uint32(k)})
 				}
 			}
 			if kind == "mux" && i%4 == 3 {
@@ -362,11 +376,17 @@ func routeJudge(prop string) func(c spec.Case, evs []spec.Event, d *Death) CaseR
 			if it.ReuseAfterMs > 0 {
 				res.Counters["pairs_on_an_id_used_before"]++
 			}
+			if it.LateReadMs > 0 {
+				res.Counters["one_way_transfers_read_late"]++
+			}
 			if it.ShortConnect {
 				res.Counters["short_connect_timeout_dials"]++
 			}
 			if it.StaleDial {
 				res.Counters["pairs_after_a_timed_out_dial"]++
+			}
+			if it.CallbackShape {
+				res.Counters["pairs_in_callback_shape"]++
 			}
 			if it.WaitReady {
 				res.Counters["late_accepts_with_retrying_dialler"]++
